@@ -304,6 +304,57 @@ def run_correspondence(harness, prop, tier, seed, outdir, scale=1):
                 stats=stats, distinct_results=len(results))
 
 
+def run_miri(outdir, n):
+    """C05 only: run short cases of this run under Miri (memory-safety oracle for the library's unsafe
+    code: out-of-bounds reads that do not crash, uninitialised memory, invalid pointer arithmetic).
+    Returns (note for the evidence, violation tuple or None).  An unavailable Miri is a note, not an alarm."""
+    mh = os.path.join(ROOT, "miri-harness")
+    cases = os.path.join(outdir, "cases.txt")
+    if not os.path.isdir(mh) or not os.path.exists(cases):
+        return "miri: harness missing", None
+    sel, seen = [], set()
+    with open(cases) as f:
+        lines = [l.strip() for l in f if l.startswith("x-text ") or l.startswith("x-bin ")]
+    # blank runs / short adversarial shapes first (they sit near the scanners' window gates), then a spread
+    short = [l for l in lines if len(l) < 64]
+    step = max(1, len(short) // (n * 2 // 3 + 1))
+    for l in short[::step]:
+        if l not in seen:
+            seen.add(l); sel.append(l)
+    longer = [l for l in lines if 64 <= len(l) < 400]
+    step = max(1, len(longer) // (n // 3 + 1))
+    for l in longer[::step]:
+        if l not in seen and len(sel) < n:
+            seen.add(l); sel.append(l)
+    mc = os.path.join(outdir, "miri-cases.txt")
+    open(mc, "w").write("\n".join(sel) + "\n")
+    lock = os.path.join(mh, "Cargo.lock")
+    if not os.path.exists(lock) and os.path.exists("/repo/Cargo.lock"):
+        shutil.copy("/repo/Cargo.lock", lock)
+    env = dict(ENV); env.pop("RUSTFLAGS", None); env["MIRIFLAGS"] = "-Zmiri-disable-isolation"
+    try:
+        with Lock("cargo-miri"):
+            p = subprocess.run(["cargo", "+nightly", "miri", "run", "--offline", "--", mc], cwd=mh, env=env,
+                               stdout=subprocess.PIPE, stderr=subprocess.STDOUT, timeout=1500)
+    except Exception as e:  # noqa
+        return f"miri: not run ({e})", None
+    out = p.stdout.decode("utf-8", "replace")
+    if "Undefined Behavior" in out or "error: unsupported operation" in out and "CASE" in out and p.returncode != 0 and "miri-cases" not in out:
+        last = [l for l in out.splitlines() if l.startswith("CASE ")]
+        case = last[-1][5:] if last else ""
+        ub = [l for l in out.splitlines() if "Undefined Behavior" in l or l.startswith("error:")]
+        detail = ("Miri: " + " | ".join(ub[:3]))[:600]
+        return f"miri: UB on case {case}", ("miri-undefined-behavior", case, detail, True)
+    m = re.search(r"miri-cases (\d+)", out)
+    if p.returncode == 0 and m:
+        return f"miri: {m.group(1)} cases, no undefined behaviour reported", None
+    if "panicked at" in out:
+        last = [l for l in out.splitlines() if l.startswith("CASE ")]
+        case = last[-1][5:] if last else ""
+        return f"miri: panic on case {case}", ("panic", case, "panic under Miri: " + out[-400:].replace("\n", " "), True)
+    return "miri: could not run (" + out[-200:].replace("\n", " ") + ")", None
+
+
 def concrete_disagreement(meta, d):
     """A model/implementation disagreement is itself a violating input only for functional
     properties (the model's answer is the proved-correct one) and only when the two sides differ in
@@ -366,10 +417,17 @@ def main():
         print(f"{prop}: anchored source differs from the pinned tree ({', '.join(drift)}): randomized budgets x{scale}")
     corr = run_correspondence(harness, prop, tier, seed, outdir, scale)
 
+    miri_note = ""
+    miri_violation = None
+    if prop == "C05" and not corr.get("died"):
+        miri_note, miri_violation = run_miri(outdir, 300 if tier == "quick" else 3000)
+
     known, fixed = load_known(prop)
     violations = []       # (kind, case, detail, concrete: bool)
     known_hits = []
 
+    if miri_violation:
+        violations.append(miri_violation)
     if table_panic:
         violations.append(("panic", "tables", "the implementation panicked while its tables were measured with exhaustive one-byte probes: " + table_panic, True))
     if corr.get("died"):
@@ -421,7 +479,7 @@ def main():
             oracle_violations=len(corr["stats"].get("violations", [])),
             known_findings_hit=len(known_hits),
             impl_hist=hist, gen_hist=corr["stats"].get("gen_hist", {}),
-            search=search_note, source_drift=drift, budget_scale=scale,
+            search=search_note, source_drift=drift, budget_scale=scale, miri=miri_note,
         ),
         assumptions=meta["assumptions"], wall_s=round(wall, 2), violations=nviol,
     )
